@@ -226,6 +226,32 @@ def addBeforeRepair (h : Heap) (a b : Nat) : Heap :=
 example : obs (addBeforeRepair (run Heap.empty [.new false false {}, .new false false {}]) 10 21) 21 ≠
     obs (run Heap.empty [.new false false {}, .new false false {}]) 21 := by decide
 
+/-- A write to the cached magnitude of an EXISTING BaseUnits object — the statement
+    `self.baseunits1.magnitude = Decimal(...)` that `UnitType.convert` contained before repair 83f1645 (and that
+    a regression can bring back).  It is not an action of `step`: `C07_units_frozen` forbids exactly this event. -/
+def writeBUCache (h : Heap) (bl : Nat) : Heap :=
+  match h.b bl with
+  | some bc => { h with b := upd h.b bl { bc with cache := h.n }, n := h.n + 1 }
+  | none => h
+
+/-- `x.value(unit)` with that statement in front of the conversion -/
+def valueBeforeRepair (h : Heap) (x : Nat) : Heap :=
+  match h.q x with
+  | some qc => (step (writeBUCache h qc.bu) (.value x {})).1
+  | none => h
+
+/-- `f = Quantity(…); d = Quantity(…); s = f + d` : `f` lives at 10, `s` at 26, both hold BaseUnits object 9 -/
+def sumHeap : Heap := run Heap.empty [.new false false {}, .new false false {}, .add 10 21 {}]
+
+example : (sumHeap.q 10).map (·.bu) = some 9 ∧ (sumHeap.q 26).map (·.bu) = some 9 := by decide
+-- the repaired `value` leaves the shared BaseUnits object and the operand alone …
+example : (step sumHeap (.value 26 {})).1.b 9 = sumHeap.b 9 ∧
+    obs (step sumHeap (.value 26 {})).1 10 = obs sumHeap 10 := by decide
+-- … the unrepaired one writes it (the event `C07_units_frozen` excludes), and the write is seen through the
+-- untouched operand `f`: sharing a BaseUnits object is harmless only because nothing writes one
+example : (valueBeforeRepair sumHeap 26).b 9 ≠ sumHeap.b 9 ∧
+    obs (valueBeforeRepair sumHeap 26) 10 ≠ obs sumHeap 10 := by decide
+
 /-- The hypothesis `WF` is what excludes hand-made sharing: in a heap where two quantities hold the same
     Magnitude object, `abse` on one is seen through the other. -/
 def sharedHeap : Heap :=
